@@ -8,6 +8,7 @@
 #include <forward_list>
 #include <list>
 #include <map>
+#include <memory_resource>
 #include <set>
 #include <string>
 #include <unordered_map>
@@ -294,6 +295,10 @@ namespace cs
     using AlPmr = fm::std_allocator<U, fm::memory_resource_allocator>;
     // std_allocator over a fallback_allocator whose default is a node-only composable leaf with a small budget
     // (arrays reach it through the default array functions of the composable traits) and whose fallback is a full leaf
+    // the standard's own polymorphic_allocator on a memory_resource_adapter (nothing propagates, equality is
+    // memory_resource::is_equal)
+    template <class U>
+    using AlStdPmr = std::pmr::polymorphic_allocator<U>;
     using FbCA = fm::fallback_allocator<LeafC, LeafA>;
     template <class U>
     using AlFb = fm::std_allocator<U, FbCA>;
